@@ -13,6 +13,7 @@ from pydsol.core.statistics import (SimCounter, SimTally, SimWeightedTally,  # n
 from pydsol.core.streams import MersenneTwister                   # noqa: E402
 
 DATA_TYPES = [EventType("VF_STAT_DATA_%d" % i) for i in range(6)]
+DATA_TYPES_B = [EventType("VF_STAT_DATA_B_%d" % i) for i in range(6)]
 
 COUNTER_GETTERS = ["n", "count"]
 TALLY_GETTERS = ["n", "min", "max", "sum", "mean", "variance", "stdev", "skewness",
@@ -133,9 +134,19 @@ class StatsExt:
             kind = sp["kind"]
             cls = {"counter": SimCounter, "tally": SimTally, "wtally": SimWeightedTally,
                    "persistent": SimPersistent}[kind]
-            st = cls("k%d" % i, "stat %d" % i, sim)
-            if sp.get("via") == "event":
+            via = sp.get("via")
+            if via == "event_ctor":
+                # producer and event type given to the constructor, a second
+                # type added later (the docs allow several listen_to calls)
+                st = cls("k%d" % i, "stat %d" % i, sim, producer=model.producer,
+                         event_type=DATA_TYPES[i])
+                st.listen_to(model.producer, DATA_TYPES_B[i])
+            else:
+                st = cls("k%d" % i, "stat %d" % i, sim)
+            if via in ("event", "event2"):
                 st.listen_to(model.producer, DATA_TYPES[i])
+            if via == "event2":
+                st.listen_to(model.producer, DATA_TYPES_B[i])
             model.stats.append(st)
             if self.case.get("probe", False):
                 pr = Probe(self, i, kind, st)
@@ -172,8 +183,10 @@ class StatsExt:
         kind = sp["kind"]
         self.obs_count += 1
         try:
-            if sp.get("via") == "event":
+            if sp.get("via") in ("event", "event2", "event_ctor"):
                 et = DATA_TYPES[i]
+                if sp.get("via") != "event" and self.obs_count % 2 == 0:
+                    et = DATA_TYPES_B[i]       # alternate between the two types
                 if kind == "counter":
                     model.producer.fire(et, int(value))
                 elif kind == "tally":
